@@ -36,7 +36,10 @@ class Val:
     @staticmethod
     def mk(num, ud=None, inexact=False):
         ud = {k: Fraction(v) for k, v in (ud or {}).items() if v != 0}
-        return Val(Fraction(num), tuple(sorted(ud.items())), inexact)
+        # the number may also be a symbolic value of the caller's numeric type (duck-typed)
+        if isinstance(num, (int, str, Fraction)):
+            num = Fraction(num)
+        return Val(num, tuple(sorted(ud.items())), inexact)
 
     def __mul__(self, o):
         d = self.udict()
@@ -56,9 +59,11 @@ class Val:
             return Val.mk(self.num ** int(e), d, self.inexact)
         # rational power: pint (Python) evaluates it in floating point, so the result is
         # inexact even for perfect powers; only 1 ** e stays exact
-        if self.num == 1:
-            return Val.mk(1, d, self.inexact)
-        return Val.mk(Fraction(float(self.num) ** float(e)), d, True)
+        if isinstance(self.num, Fraction):
+            if self.num == 1:
+                return Val.mk(1, d, self.inexact)
+            return Val.mk(Fraction(float(self.num) ** float(e)), d, True)
+        return Val.mk(self.num**e, d, True)
 
 
 def _iroot(n: int, k: int):
